@@ -11,12 +11,38 @@ PROPS = "Props/C16.v"
 IMPORTS = "From Coq Require Import String PrimFloat.\nFrom PV Require Import Lib.Common Lib.C16_Spec Model.C16_Store Model.C16_Heap Model.C16_Codec Gen.C16_Fields."
 SHARD = 40
 SERIAL = False
-LEVEL_TEXT = "TODO"
-LEVEL_NOTE = "TODO"
+LEVEL_TEXT = ("Coq theorems over executable models of (1) the HDF5 store with h5py_File_write_dict, the typed readers and the table-driven "
+              "to_hdf5/from_hdf5 of 12 classes: for every class without a dictionary field, every prior file content, group name and well-typed "
+              "object, a successful overwrite followed by a read returns exactly the attributes written, hence after any sequence of overwrites "
+              "the last object (UTF-8 round trip proved for all unicode scalar strings); refutations by computation for the pre-fix code and, for "
+              "the code as it stands, for nested dictionaries (genomic-model hyper-parameters); (2) a heap model of copy/deepcopy: copies observe "
+              "the source's values, a deep copy lives in freshly allocated cells closed under reachability and no mutation of them is visible "
+              "through the source; (3) VCF import (positionally exact; with grouping a stable sort + run-length metadata) and the data-frame "
+              "codecs (Morgan genetic maps lossless; refutations for cM rounding, breeding-value location/scale, sorted variance-matrix labels, "
+              "absent labels). Field lists, readers and copy modes are extracted from the source by an ast translator on every run and checked "
+              "(written = read, metadata persisted, copies cover constructor and metadata). The models are tied to the code by evaluating them "
+              "inside Coq against real HDF5 files, CSV files, data frames, VCF text parsed by cyvcf2, and copy/mutation experiments.")
+LEVEL_NOTE = ("trusted: Coq kernel + vm_compute, PrimFloat primitives (data-frame codecs), h5py/HDF5 (modelled as a path->node map with "
+              "create/delete/membership), pandas (frames are compared cell by cell; CSV text is not modelled: the frame pandas parses back is an "
+              "input of the model), cyvcf2 (VCF text -> records), numpy copy semantics (ndarray.__copy__/__deepcopy__ duplicate the buffer). "
+              "Theorems are about the Gallina models; the tie to the code is differential on generated inputs plus the regenerated field tables. "
+              "Not proved: a general round trip for classes with dictionary fields, general (all-size) round trips of the wide/long data-frame "
+              "codecs other than Morgan genetic maps, class-level (all attributes at once) copy equality.")
 TECHNIQUE = "Coq proof over executable store/codec/heap models; in-Coq vm_compute correspondence with the implementation; ast-generated field tables"
-RULE = "TODO"
-TRUSTED = []
-ASSUMPTIONS = []
+RULE = ("case kinds from one PRNG: h5 (class, group name incl. nested/non-ASCII/absolute, 1-3 objects written to the same location with "
+        "overwrite flags, rich->poor sequences, optional fields all/none/mixed, grouped or arbitrary metadata, file name or open handle), wd "
+        "(h5py_File_write_dict called directly with nested dictionaries and None items), copy (14 classes x copy/deepcopy/method forms, then "
+        "every reachable array/dict of the copy is mutated), vcf (1-4 samples, 1-6 phased diploid records, unsorted, '.' identifiers, non-ASCII "
+        "names, phased and unphased class, with and without grouping, a share with tied coordinates), df (7 classes via pandas or CSV with "
+        "matching options, dyadic and awkward floats, sorted/unsorted and absent labels, cM/M units); non-trivial = an object with both present "
+        "and absent optional fields or a sequence of >= 2 writes / any copy, vcf, df, wd case; distinct by SHA-256 of the case")
+TRUSTED = ["h5py/HDF5 semantics: membership test, delete of a group removes its subtree, create_dataset creates missing groups and refuses existing names",
+           "pandas: DataFrame construction, get_loc, to_numpy; read_csv/to_csv treated as a black box whose parsed frame is observed",
+           "cyvcf2 0.34: VCF text -> (CHROM, POS, ID, genotypes)", "numpy: ndarray.__copy__/__deepcopy__ copy the buffer; lexsort/argsort(mergesort) are stable",
+           "group metadata attribute names (taxa_grp_*, vrnt_chrgrp_*) are listed in the harness, not derived from the source"]
+ASSUMPTIONS = ["labels are str objects of unicode scalar values (no lone surrogates); label arrays are 1-D object arrays as the setters require",
+               "hyper-parameter dictionaries are one level deep", "VCF records carry diploid GT calls with integer CHROM",
+               "data-frame cases avoid NaN/inf and duplicated labels; CSV cases avoid labels that pandas would re-type (numeric, empty, NA-like)"]
 
 import boot
 BUILD = os.path.join(boot.VERIF, "build", "C16")
@@ -1086,12 +1112,21 @@ def pred_df(case, out):
         if b["taxa"] is None or b["trait"] is None or b["mat"]["sh"] != [n, n, t]:
             bad.append("variance matrix read back with another shape or without labels")
         else:
-            if entries(o, ot, otr) != entries(b, b["taxa"]["d"], b["trait"]["d"]): bad.append("variance entries differ as a labelled set (female, male, trait) -> value")
+            eo, eb = entries(o, ot, otr), entries(b, b["taxa"]["d"], b["trait"]["d"])
+            csv = case["via"] == "csv"
+            same = set(eo) == set(eb) and all(eo[k] == eb[k] or (csv and _ulps([float.fromhex(eo[k])], [float.fromhex(eb[k])], 64)) for k in eo)
+            if not same: bad.append("variance entries differ as a labelled set (female, male, trait) -> value")
             if (o["taxa_grp"] is None) != (b["taxa_grp"] is None): bad.append("taxa_grp presence changed")
             elif o["taxa_grp"] is not None and dict(zip(ot, o["taxa_grp"]["d"])) != dict(zip(b["taxa"]["d"], b["taxa_grp"]["d"])): bad.append("taxon -> group assignment differs")
+            moved = ot != b["taxa"]["d"] or otr != b["trait"]["d"]
             pos = [f for f in rest if f in ("mat", "taxa", "taxa_grp", "trait")]
-            if pos: bad.append("[vmat-sorted] positional layout not reproduced (labels re-sorted by the reader): %s" % ",".join(pos))
-        rest = [f for f in rest if f not in ("mat", "taxa", "taxa_grp", "trait")]
+            if moved and pos:
+                bad.append("[vmat-sorted] positional layout not reproduced (labels re-sorted by the reader): %s" % ",".join(pos))
+                rest = [f for f in rest if f not in ("mat", "taxa", "taxa_grp", "trait")]
+            elif exact_pos_bits := [f for f in pos if f != "mat"]:
+                bad.append("labels/groups differ although the label order is unchanged: %s" % ",".join(exact_pos_bits))
+                rest = [f for f in rest if f not in exact_pos_bits]
+        rest = [f for f in rest if f in ("mat",) or f not in ("taxa", "taxa_grp", "trait")]
     elif key in ("SGMAP", "EGMAP"):
         gp = [f for f in rest if f in ("vrnt_genpos", "spline")]
         if gp:
@@ -1103,7 +1138,7 @@ def pred_df(case, out):
         rest = [f for f in rest if f not in ("vrnt_genpos", "spline")]
     if case["via"] == "csv":
         fl = [f for f in rest if o[f] is not None and b[f] is not None and o[f]["t"] == "f64" and b[f]["t"] == "f64"
-              and o[f]["sh"] == b[f]["sh"] and _ulps(_fl(o[f]), _fl(b[f]), 8)]
+              and o[f]["sh"] == b[f]["sh"] and _ulps(_fl(o[f]), _fl(b[f]), 64)]
         if fl: bad.append("[csv-float-parse] %s differ in the last bits after to_csv/from_csv (pandas' default float parser is not round-trip exact)" % ",".join(fl))
         rest = [f for f in rest if f not in fl]
     if rest: bad.append("fields not reproduced: %s" % ",".join(rest))
@@ -1153,7 +1188,12 @@ def gen_wd(rng):
             elif r < 0.87: d[k] = {"t": "s", "v": rng.choice(["x", "é/ü", ""])}
             else: d[k] = {"t": "int", "v": rng.randint(-3, 9)}
         dicts.append(d)
-    return {"kind": "wd", "group": rng.choice(["", "g/", "a/b/", "ü/"]), "dicts": dicts, "overwrite": [rng.random() < 0.7 for _ in range(n)]}
+    ow = [rng.random() < 0.7 for _ in range(n)]
+    if rng.random() < 0.25:            # only dictionary-valued keys, then the same keys again without overwrite: the nested call overwrites anyway
+        k = rng.choice(WD_KEYS)
+        sub = lambda: {"t": "dict", "v": {kk: g_f64(rng, [1]) for kk in rng.sample(["x", "y", "ζ"], rng.randint(1, 3))}}
+        dicts = [{k: sub()}, {k: sub()}]; ow = [rng.random() < 0.5, False]
+    return {"kind": "wd", "group": rng.choice(["", "g/", "a/b/", "ü/"]), "dicts": dicts, "overwrite": ow}
 
 def e_item(v):
     if v is None: return "INone"
@@ -1203,3 +1243,45 @@ def pred_wd(case, out):
             nested = all("/" in k for k in extra)
             bad.append(("[wd-stale-nested] " if nested else "") + "step %d: stale datasets below keys of the dictionary: %s" % (i, ",".join(extra)))
     return bad
+
+# ------------------------------------------------------------------------------------------------ shrinking
+_KEEP = {"mat", "beta", "u_a", "u_d", "nenv", "nrep", "location", "scale", "ploidy", "vrnt_chrgrp", "vrnt_phypos", "vrnt_genpos", "vrnt_stop"}
+def shrink(case, fails):
+    """drop leading writes, then optional fields / metadata / grouping requests, while the predicate still fails"""
+    cur = _copy.deepcopy(case)
+    def attempt(c):
+        try: return bool(fails(c))
+        except Exception: return False
+    if cur["kind"] == "h5":
+        while len(cur["objs"]) > 1:
+            t = _copy.deepcopy(cur); t["objs"] = t["objs"][1:]; t["overwrite"] = t["overwrite"][1:]
+            if attempt(t): cur = t
+            else: break
+        objs = cur["objs"]
+    elif cur["kind"] in ("copy", "df"): objs = [cur["obj"]]
+    elif cur["kind"] == "vcf":
+        j = 0
+        while len(cur["records"]) > 1 and j < len(cur["records"]):
+            t = _copy.deepcopy(cur); del t["records"][j]
+            if attempt(t): cur = t
+            else: j += 1
+        return cur
+    elif cur["kind"] == "wd":
+        while len(cur["dicts"]) > 1:
+            t = _copy.deepcopy(cur); t["dicts"] = t["dicts"][1:]; t["overwrite"] = t["overwrite"][1:]
+            if attempt(t): cur = t
+            else: break
+        return cur
+    else: return cur
+    for i in range(len(objs)):
+        for k in list(objs[i].keys()):
+            if k in _KEEP or k.startswith("_n"): continue
+            t = _copy.deepcopy(cur)
+            tob = t["objs"][i] if cur["kind"] == "h5" else t["obj"]
+            if k == "_group": tob.pop("_group")
+            elif tob.get(k) is None: continue
+            else: tob[k] = None
+            if attempt(t):
+                cur = t
+                objs = cur["objs"] if cur["kind"] == "h5" else [cur["obj"]]
+    return cur
